@@ -107,6 +107,21 @@ class Lru(dict):
         return 'Lru(%d entries)' % len(self)
 
 
+class SlotsHook:
+    """No __dict__ (slots) and an attribute hook that keeps what it was asked for: lazily created attributes,
+    access statistics. Only the special names are kept (expressions may well ask for ordinary ones)."""
+    __slots__ = ('a', 'asked')
+
+    def __init__(self):
+        self.a = 1
+        self.asked = []
+
+    def __getattr__(self, name):
+        if name.startswith('__'):
+            self.asked.append(name)
+        raise AttributeError(name)
+
+
 class OneShot:
     """Iterable whose __iter__ may be called only once, and which counts len() calls as reads."""
 
@@ -205,6 +220,22 @@ def _mk_hostile(kind, exc_code):
             def __init__(self):
                 self.inner = 7
         return Nameless()
+    if kind == 'badmeta_repr':
+        # neither the value nor its class can be shown: str(value) fails, and so does repr(type(value))
+        class MetaR(type):
+            def __repr__(cls):
+                raise exc('this class does not render')
+
+        class Unrendered(metaclass=MetaR):
+            def __init__(self):
+                self.inner = 7
+
+            def __str__(self):
+                raise exc('str failed')
+            __repr__ = __str__
+        return Unrendered()
+    if kind == 'slots_hook':
+        return SlotsHook()
     raise ValueError(kind)
 
 
@@ -232,7 +263,7 @@ def _mk_hsub(base, dunder, exc_code):
 
 
 HOSTILE_KINDS = ['badstr', 'badrepr', 'badlen', 'badgetattr', 'badgetattribute', 'baddict', 'badclass', 'badhash',
-                 'badstr_exc', 'badkeys', 'baditer', 'dictless_dunder', 'badmeta', 'hsub', 'hsub', 'hsub']
+                 'badstr_exc', 'badkeys', 'baditer', 'dictless_dunder', 'badmeta', 'badmeta_repr', 'hsub', 'hsub', 'hsub']
 # values whose str()/traversal legitimately cannot be rendered: only a placeholder is required for them
 OFFENDING_KINDS = set(HOSTILE_KINDS) | {'surrogate'}
 
@@ -242,7 +273,7 @@ NODICT_KINDS = ['bytes', 'badbytes', 'bytearray', 'slots', 'lock', 'deque', 'dat
                 'stringio', 'ordereddict', 'defaultdict', 'namedtuple', 'counter', 'strsub', 'intsub', 'listsub',
                 'dictsub', 'dataclass', 'func', 'lambda', 'cls', 'module', 'list_iter', 'list_reviter',
                 'frame', 'traceback_obj', 'code', 'weakref', 'date', 'timedelta', 'slice', 'mappingproxy', 'mailbox',
-                'oneshot', 'mailbox', 'builtin_named', 'builtin_named']
+                'oneshot', 'mailbox', 'builtin_named', 'builtin_named', 'slots_hook']
 SCALAR_KINDS = ['none', 'bool', 'int', 'bigint', 'float', 'nan', 'inf', 'str', 'longstr', 'surrogate', 'nulstr',
                 'astral', 'emptystr']
 CONTAINER_KINDS = ['list', 'tuple', 'set', 'frozenset', 'dict', 'obj', 'exc']
@@ -406,6 +437,8 @@ def _build_leaf(node):
         return Mailbox([1, 2, 3])
     if k == 'oneshot':
         return OneShot()
+    if k == 'slots_hook':
+        return SlotsHook()
     if k == 'lru':
         return Lru({'a': 1, 'b': 2, 'c': 3})
     if k == 'hsub':
